@@ -361,9 +361,11 @@ def rule_r4(prog, res) -> None:
                         ext = [e2 for e2 in p.calls("extend") if isinstance(e2.expr.func, ast.Attribute) and unparse(e2.expr.func.value) == unparse(e) and e2.expr.args]
                         return lead, (ext[0].expr.args[0] if ext else None)
                     if isinstance(e, ast.Call) and isinstance(e.func, ast.Name) and e.func.id == symx.ELEM and e.args:
-                        z = e.args[0]
+                        z = symx.strip_wrappers(e.args[0])
                         if isinstance(z, ast.Call) and isinstance(z.func, ast.Name) and z.func.id == "zip":
                             return list(z.args), None
+                        if isinstance(z, (ast.GeneratorExp, ast.ListComp)) and len(z.generators) == 1 and not z.generators[0].ifs:
+                            return shape(z.elt, depth + 1)  # an element of a generator of rows: the row expression itself
                     if isinstance(e, ast.BinOp) and isinstance(e.op, ast.Add):
                         l, r = shape(e.left, depth + 1), shape(e.right, depth + 1)
                         if l is not None and l[1] is None:
@@ -503,10 +505,16 @@ def rule_r4(prog, res) -> None:
     # writer passes str(binning.closed); reader builds Binning(edges, closed=closed)
     ff = prog.func("CorrData.from_files")
     res.touch(ff)
-    okb = any(
-        any(k.name == "Binning" for k in prog.resolve_call(ff, c).classes()) and kwarg(c, "closed") is not None and isinstance(kwarg(c, "closed"), ast.Name)
-        for c in calls_in(ff)
-    )
+    # on the symbolic store (a reading helper is looked through): Binning(…, closed=<second value returned by load_data>)
+    okb = False
+    for p in symx.explore(prog, ff, env={"on_root()": True, "on_worker()": False}, inline=symx.inline_private_helpers(prog, public={"load_data", "load_samples", "load_header"}), skip_tests=("logger",)):
+        for ev in p.calls("Binning"):
+            cl = kwarg(ev.expr, "closed") or (ev.expr.args[1] if len(ev.expr.args) > 1 else None)
+            cl = symx.strip_wrappers(cl) if cl is not None else None
+            if isinstance(cl, ast.Subscript) and isinstance(cl.slice, ast.Constant) and cl.slice.value == 1 and symx.calls_named(cl.value, "load_data"):
+                okb = True
+            elif isinstance(cl, ast.Name) and any(isinstance(x, ast.Assign) and isinstance(x.targets[0], ast.Tuple) and any(isinstance(t, ast.Name) and t.id == cl.id for t in x.targets[0].elts) and "load_data" in unparse(x.value) for f_ in [ff] for x in walk_no_nested(f_.node)):
+                okb = True
     if okb:
         res.ok("C11.R4", res.site(ff), "restored binning receives the decoded closed side")
     else:
